@@ -21,6 +21,7 @@ package main
 
 import (
 	"bytes"
+	"crypto/aes"
 	crand "crypto/rand"
 	"encoding/base64"
 	"encoding/hex"
@@ -652,8 +653,8 @@ func emitConsts(w io.Writer) {
 		}
 	}
 	alphabet = img[:period]
-	fmt.Fprintln(w, "(* aes.BlockSize as used by wkprotoenc (pkcs7PaddingSize(0, bs) = bs) *)")
-	fmt.Fprintf(w, "Definition AesBlockSize : N := %d.\n", penc.VerifPkcs7PaddingSize(0, 16))
+	fmt.Fprintln(w, "(* crypto/aes.BlockSize *)")
+	fmt.Fprintf(w, "Definition AesBlockSize : N := %d.\n", aes.BlockSize)
 	fmt.Fprintln(w, "(* wkprotoenc.sessionIVSize *)")
 	fmt.Fprintf(w, "Definition SessionIVSize : N := %d.\n", penc.VerifSessionIVSize())
 	fmt.Fprintln(w, "(* the alphabet of wkprotoenc.randomIV, recovered by running it on raw bytes 0..255 *)")
